@@ -254,13 +254,17 @@ impl Monitor for LifeMonitor {
 pub fn run(tier: Tier) -> Report {
     let rep = Report::new("C03", tier);
     let ls = lists();
-    rep.set_rule("every history of depth <= D over {predict(scene in {0,1}, [] | [P] | [Q] | [P,Q]), skip(0,1), skip(1,1), skip(0,2), wasted, clear_wasted, set_auto_waste(1)} with idle_tracks(both scenes), current epochs, active/wasted shard statistics and both store dumps observed after every step, on three instances with collection period 100 / 0 / 1 in lock-step; reference model: scene epochs, track -> (scene, last epoch, length, place). Sort at depth 4 (quick) / 5 (thorough) for max_idle 0,1,2 x shards 1,2; the other three trackers at depth 3 / 4. Non-trivial = history with an expiry (a skip or an empty predict after a track exists).");
+    rep.set_rule("every history of depth <= D over {predict(scene in {0,1}, [] | [P] | [Q] | [P,Q]), skip(0,1), skip(1,1), skip(0,2), wasted, clear_wasted, set_auto_waste(1)} with idle_tracks(both scenes), current epochs, active/wasted shard statistics and both store dumps observed after every step, on three instances with collection period 100 / 0 / 1 in lock-step; reference model: scene epochs, track -> (scene, last epoch, length, place). Sort at depth 4 (quick) / 5 (thorough) for max_idle 0,1,2 x shards 1,2 (quick: 2 shards only with max_idle 1); the other three trackers at depth 3 / 4. Non-trivial = history with an expiry (a skip or an empty predict after a track exists).");
     rep.assume("identical / disjoint boxes, so association is unambiguous; sequential use under the default schedule");
     let mut total_h = 0u64;
     let mut total_s = 0u64;
     let mut cfgs: Vec<(TrkCfg, usize)> = vec![];
     for max_idle in [0usize, 1, 2] {
         for shards in [1usize, 2] {
+            // quick: both shard counts only for max_idle 1
+            if tier == Tier::Quick && shards == 2 && max_idle != 1 {
+                continue;
+            }
             let mut c = TrkCfg::new(Kind::Sort);
             c.max_idle = max_idle;
             c.shards = shards;
